@@ -490,6 +490,13 @@ func genPlainOp(g *gen, c *Cfg, n int) Op {
 
 func genStickyPlan(seed uint64, tier string) *Plan {
 	g := newGen(seed)
+	if g.chance(10) {
+		// pins while the backend set changes by name resolution: a dialog stays with its backend also after that
+		// backend was withdrawn from the rotation (the membership world of C19, judged by C04's rule)
+		p := genMembershipPlan(seed, tier)
+		p.Variant = "membership"
+		return p
+	}
 	p := &Plan{Sched: g.intn(3), PCTDepth: 1 + g.intn(3)}
 	c := genDialogCfg(g, 1+g.intn(2), 2, 6)
 	c.DialogTimeout = 3600
@@ -647,6 +654,9 @@ func splitID(id string) (string, string) {
 // ---- C04 execution ----
 
 func execSticky(t *testing.T, p *Plan) *Result {
+	if p.Variant == "membership" {
+		return execMembership(t, p)
+	}
 	r := &Result{}
 	var d *dlgWorld
 	w := runWorld(t, p, func(w *World) {
@@ -856,6 +866,13 @@ func (d *dlgWorld) installStickyRules(prop string) {
 				w.stat("dontcare:duplicate-of-terminating-request")
 				return
 			}
+			if party != mod.pinned && d.terminationPassed(mod) {
+				// the terminating request (or the answer to the BYE) has already passed the proxy - it may still be on
+				// its way to the backend, so the model has not seen it yet - and this is a late copy of an earlier
+				// request: load-balanced, rightly
+				w.stat("dontcare:late-copy-after-termination-passed-the-proxy")
+				return
+			}
 			if party != mod.pinned {
 				mclass := "other"
 				if sub.S["method"] == "INVITE" || sub.S["method"] == "SUBSCRIBE" {
@@ -964,6 +981,28 @@ func (d *dlgWorld) installStickyRules(prop string) {
 			}
 		}
 	}
+}
+
+// terminationPassed: has the proxy already relayed what dissolves the pin of this dialog (a NOTIFY with
+// Subscription-State terminated, or the answer to a BYE)?
+func (d *dlgWorld) terminationPassed(mod *dlgModel) bool {
+	for idx := range mod.op.Sub {
+		sub := &mod.op.Sub[idx]
+		id := fmt.Sprintf("%s.s%d", mod.id, idx)
+		switch {
+		case strings.HasPrefix(sub.S["state"], "terminated"):
+			if d.emittedCount(id) > 0 {
+				return true
+			}
+		case sub.S["method"] == "BYE":
+			for _, e := range d.w.decodeEmissions(0) {
+				if strings.HasPrefix(e.ID, id+".r") {
+					return true
+				}
+			}
+		}
+	}
+	return false
 }
 
 // emittedCount: how many times the proxy relayed (or tried to relay: a datagram write that failed counts, the
